@@ -202,7 +202,11 @@ def main():
             for norm in (True, False):
                 rep["evaluations"] += 1
                 batch = seqs_pool[:size]
-                got = oc.vectorise_batch(list(batch), norm)
+                try:
+                    got = oc.vectorise_batch(list(batch), norm)
+                except BaseException as e:  # noqa  (a Rust panic surfaces as pyo3's PanicException, a BaseException)
+                    viol("oligo-batch", size, "OligoComputer(3).vectorise_batch of %d sequences (norm=%s) raised %s: %s" % (size, norm, type(e).__name__, e))
+                    continue
                 exp = [oc.vectorise_one(s, norm) for s in batch]
                 if got != exp:
                     bad = next((i for i, (a, b) in enumerate(zip(got, exp)) if a != b), None)
@@ -211,7 +215,10 @@ def main():
                     rep["nontrivial"] += 1
             rep["evaluations"] += 1
             batch = clean_pool[:size]
-            got = cg.vectorise_batch(list(batch))
+            try:
+                got = cg.vectorise_batch(list(batch))
+            except BaseException as e:  # noqa
+                got = "raised %s: %s" % (type(e).__name__, e)
             exp = [cg.vectorise_one(s) for s in batch]
             if got != exp:
                 viol("cgr-batch", size, "CgrComputer(16).vectorise_batch of %d sequences differs from the per-sequence results" % size)
@@ -228,6 +235,35 @@ def main():
                         viol("cgr-batch-bad-nucleotide", size, "vectorise_batch with a bad nucleotide at position %d of %d returned coordinates" % (pos, size))
                     except ValueError:
                         rep["nontrivial"] += 1
+        # the batch functions run on rayon's pool, whose schedule cannot be controlled from here: small batches are
+        # repeated (free-running; this part is repetition, not an exhaustive exploration of schedules)
+        reps = 0
+        for rnd in range(40):
+            for size in (2, 3, 4, 5, 7, 8, 9, 15, 16, 17, 31, 33):
+                batch = seqs_pool[rnd * 37 % 900:][:size]
+                reps += 1
+                rep["evaluations"] += 1
+                try:
+                    got = oc.vectorise_batch(list(batch), rnd % 2 == 0)
+                    exp = [oc.vectorise_one(s, rnd % 2 == 0) for s in batch]
+                    ok = got == exp
+                    why = "differs from the per-sequence results"
+                except BaseException as e:  # noqa
+                    ok, why = False, "raised %s: %s" % (type(e).__name__, e)
+                if not ok:
+                    viol("oligo-batch", size, "OligoComputer(3).vectorise_batch of %d sequences (repetition %d): %s" % (size, rnd, why))
+                    break
+                rep["nontrivial"] += 1
+                cb = clean_pool[rnd * 37 % 900:][:size]
+                try:
+                    ok = cg.vectorise_batch(list(cb)) == [cg.vectorise_one(s) for s in cb]
+                    why = "differs from the per-sequence results"
+                except BaseException as e:  # noqa
+                    ok, why = False, "raised %s: %s" % (type(e).__name__, e)
+                if not ok:
+                    viol("cgr-batch", size, "CgrComputer(16).vectorise_batch of %d sequences (repetition %d): %s" % (size, rnd, why))
+                    break
+        count("batch_repetitions", reps)
         count("batch_sizes", 67)
         rep["samples"] = ["OligoComputer(3).vectorise_batch(first 37 sequences, norm=False) == [vectorise_one(s) ...]"]
     json.dump(rep, open(report, "w"))
